@@ -49,15 +49,20 @@ class FakeSamples:
 
     def __getitem__(self, n):
         self.read.append(n)
-        return {"logL": _Rec()}
+        return {"logL": _Rec(n)}
 
     def __len__(self):
         raise TypeError("len() of the symbolic store")
 
 
 class _Rec:
+    """The likelihood of sample n: carries the (possibly symbolic) index it was read at."""
+
+    def __init__(self, n):
+        self.n = n
+
     def copy(self):
-        return "threshold"
+        return _Rec(self.n)
 
 
 def _ins(ctx):
@@ -107,8 +112,10 @@ def make_clamp(cap):
         ins.determine_threshold_quantile = lambda samples, **kw: nm
         s = FakeSamples(size)
         out = ins.determine_log_likelihood_threshold(s, method=["entropy", "quantile"][ctx.choice("method", 2)])
-        ctx.prove(out == "threshold" and len(s.read) == 1, "the threshold is read from the sample array exactly once")
-        n = s.read[0]
+        ctx.prove(isinstance(out, _Rec), "the threshold is the likelihood of one of the stored samples")
+        if not isinstance(out, _Rec):
+            return
+        n = out.n
         ctx.prove(AND(n >= 0, n < size), "the threshold is the likelihood of one of the live samples (index in range)")
         kept = size - n
         n_eff = nm if mut != "shift" else nm + 1
